@@ -54,7 +54,7 @@ def run_items(items, job):
         if doc == "":
             R.skip("empty-document")
             continue
-        idx = int(key.split(":")[1]) if key[0] == "Z" else PL.mix(key) & 0xFFFF
+        idx = PL.item_index(it, key)
         single = fix_all[(idx * 7 + 2) % len(fix_all)]
         v = set()
         detail = {"doc": doc, "configs": {}}
